@@ -58,7 +58,9 @@ FASTOR_INLINE void assign ##ASSIGN_TYPE (AbstractTensor<Derived,DIM> &dst, const
         assign ##OP_ASSIGN_TYPE (dst.self(), src.rhs().self());\
     }\
     else{\
-        const Derived tmp(dst.self());\
+        /* rhs refers to dst: evaluate it (not just dst) before dst is modified */\
+        using rhs_result_type = typename remove_all_t<TRhs>::result_type;\
+        const rhs_result_type tmp(src.rhs().self());\
         assign ##ASSIGN_TYPE (dst.self(), src.lhs().self());\
         assign ##OP_ASSIGN_TYPE (dst.self(), tmp);\
     }\
